@@ -172,3 +172,22 @@ def arrival_variants(make, who=None, with_faults=False, kinds=FAULTS_BY_KIND, st
                     yield ("late+fault", who, p, seq, f), run
                 else:
                     run.finish()
+
+
+def time_variants(make, stride=1):
+    """The clock jumps to each deadline seen in the default schedule right before every position
+    (also between two atomic blocks: a timer that falls due while a wake-up is still queued)."""
+    base = baseline(make)
+    deadlines = set()
+    for ev in base.events:
+        o = ev.get("obs")
+        if o:
+            deadlines.update(o["timers"])
+    npos = base.pos
+    base.finish()
+    for d in sorted(deadlines):
+        for p in range(0, npos + 1, stride):
+            run = make()
+            run.inject = {p: [("advance", d)]}
+            run.run()
+            yield ("time", d, p), run
